@@ -215,7 +215,33 @@ fn first_diff(a: &[u8], b: &[u8]) -> String {
     format!("lengths {} vs {}", a.len(), b.len())
 }
 
+/// Choice names are derived from the symbols of an alternative and made unique by numbering: alternatives that refer to
+/// the same symbol several times, plainly and through the `+`/`*`/`?` sugar (whose helpers are called `X1`, `X0`, `XOpt`),
+/// so that one duplicated name is another duplicated name plus a number.
+pub fn choice_name_stress(rng: &mut Rng) -> String {
+    let wraps = [("", ""), ("'(' ", " ')'"), ("'[' ", " ']'"), ("'{' ", " '}'"), ("'<' ", " '>'"), ("'|' ", " '|'")];
+    let mut idx: Vec<usize> = (0..wraps.len()).collect();
+    rng.shuffle(&mut idx);
+    let n = rng.range(3, 6);
+    let mut alts = vec![];
+    for k in 0..n {
+        let (a, b) = wraps[idx[k]];
+        let sym = match rng.below(6) {
+            0 | 1 => "Item",
+            2 | 3 => "Item+",
+            4 => "Item*",
+            _ => "Item?",
+        };
+        alts.push(format!("{}{}{}", a, sym, b));
+    }
+    let extra = if rng.chance(0.4) { "Item1x: Item Item;\n" } else { "" };
+    format!("Group: {};\n{}Item: Num | Id;\nterminals\nId: /x\\d+/;\nNum: /\\d+/;\nOP: '(';\nCP: ')';\nOB: '[';\nCB: ']';\nOC: '{{';\nCC: '}}';\nLT: '<';\nGT: '>';\nBar: '|';\n", alts.join("\n    | "), extra)
+}
+
 pub fn dedupe_stress(rng: &mut Rng) -> String {
+    if rng.chance(0.6) {
+        return choice_name_stress(rng);
+    }
     // production kinds repeated inside one rule: K, K, K1, K1 ... (name de-duplication)
     let pool = ["K", "K1", "K2", "Add", "Add1"];
     let n = rng.range(3, 6);
